@@ -59,6 +59,10 @@ impl ContentResolver {
             root.named_files()
         );
 
+        // A root file loaded earlier is replaced as a whole: its FileDataIDs
+        // must not answer for the new one.
+        self.file_data_id_map.clear();
+
         // Build FileDataID map if supported
         for block in &root.blocks {
             for entry in &block.records {
@@ -68,6 +72,8 @@ impl ContentResolver {
         }
 
         *self.root_file.write() = Some(root);
+        // Paths resolved through the previous root file are stale now.
+        self.path_cache.clear();
         Ok(())
     }
 
@@ -81,6 +87,10 @@ impl ContentResolver {
 
         let encoding = EncodingFile::parse(data)
             .map_err(|e| StorageError::Resolver(format!("Failed to parse encoding file: {e}")))?;
+
+        // An encoding file loaded earlier is replaced as a whole: content keys
+        // cached from it must not answer for the new one.
+        self.content_cache.clear();
 
         // Build content key cache from pages
         let mut cached_entries = 0;
